@@ -274,6 +274,8 @@ type Run struct {
 	faultReplay *faultCase
 	osHook      *OSHook
 	commits     int
+	commitEpochs map[string]bool
+	tornEpochs  map[uint64]bool
 	dirInvSeen  int
 	slotBusy    map[int]bool   // slot reserved by an open/close operation in flight (scheduler goroutine only)
 	slotOf      map[string]int // client -> slot it reserved
@@ -284,6 +286,9 @@ type Run struct {
 	extQueries  []qSpec
 	dupDone     bool
 	dupID       string
+	reopening   string // client that is closing and reopening the writer right now
+	ackCount    map[int]int // persisted-callback invocations per batch
+	closeSpans  [][2]int    // [first, last] window of every Close call
 	refAnswers  map[int]*answer
 	observations []Violation // non-fatal observations matched against known findings by the driver
 	expectPlan  *mergeplan.MergePlan
@@ -529,6 +534,44 @@ func (r *Run) exec(c *client, op *Op) {
 			return
 		}
 		r.s.Rec("return", "snap-read "+cont.Key(), readData{-1, cont, c.idx})
+	case "reopen":
+		// clean Close and OpenWriter in the middle of a run (every other
+		// client is between two calls; everything returned is acknowledged)
+		r.mu.Lock()
+		r.wOpen = false
+		w := r.w
+		r.mu.Unlock()
+		r.s.Rec("invoke", "close (reopen)", nil)
+		err := w.Close()
+		r.s.Rec("return", "close "+errStr(err), nil)
+		if err != nil {
+			r.fail("close", "Writer.Close returned an error: "+err.Error())
+			return
+		}
+		r.s.Rec("invoke", "open (reopen)", nil)
+		w2, err := bluge.OpenWriter(r.cfg)
+		r.s.Rec("return", "open "+errStr(err), nil)
+		firedBefore := 0
+		for attempt := 0; err != nil && r.p.Faults && attempt < 64; attempt++ {
+			now := r.plan.firedTotal()
+			if now == firedBefore {
+				break
+			}
+			firedBefore = now
+			r.probe("open-failed-under-fault")
+			r.s.Rec("invoke", "open (retry)", nil)
+			w2, err = bluge.OpenWriter(r.cfg)
+			r.s.Rec("return", "open "+errStr(err), nil)
+		}
+		if err != nil {
+			r.fail("lock-not-released", "OpenWriter right after Writer.Close failed: "+err.Error())
+			return
+		}
+		r.mu.Lock()
+		r.w = w2
+		r.wOpen = true
+		r.mu.Unlock()
+		r.probe("reopened-mid-run")
 	case "shared-read":
 		r.mu.Lock()
 		h := r.slots[op.Slot]
@@ -831,6 +874,10 @@ func (r *Run) genOp(c *client) *Op {
 			return &Op{Kind: "reader-close", Slot: held[t.Draw(len(held), "op.slot")]}
 		}
 	}
+	if r.p.CloseReopen && r.k.Dir == "fs" && !r.conc && r.reopening == "" && r.othersBetweenCalls(c) && r.allReturnedAcked() && t.Chance(1, 10, "op.reopen") {
+		r.reopening = c.name
+		return &Op{Kind: "reopen"}
+	}
 	if r.p.History && t.Chance(1, 4, "op.snapread") {
 		return &Op{Kind: "snap-read"}
 	}
@@ -894,6 +941,24 @@ func roleOf(actor string) string {
 
 func (r *Run) choose(P []*parked) *parked {
 	t := r.t
+	if r.reopening != "" {
+		var Q []*parked
+		for _, p := range P {
+			if p.label == "next-op" && p.actor == r.reopening {
+				r.reopening = "" // back between two calls: the reopen is over
+			}
+		}
+		if r.reopening != "" {
+			for _, p := range P {
+				if p.label != "next-op" {
+					Q = append(Q, p)
+				}
+			}
+			if len(Q) > 0 {
+				P = Q
+			}
+		}
+	}
 	if r.k.Sticky > 0 && r.lastRel != "" {
 		for _, p := range P {
 			if p.actor == r.lastRel {
@@ -1137,6 +1202,7 @@ func (r *Run) afterWindow() {
 				r.hist = append(r.hist, HistOp{Client: b.Client, Call: 2 * r.callWin[b.Client], Ret: 2*e.Win + 1, Kind: "batch", Batch: b, Err: errStr(d.err)})
 			}
 		case ackData:
+			r.ackCount[d.n]++
 			if d.err == nil {
 				r.acks[d.n] = e.Win
 			}
@@ -1151,6 +1217,14 @@ func (r *Run) afterWindow() {
 		}
 		if e.Kind == "probe" {
 			r.stats.Probes[e.Detail]++
+		}
+		// windows during which a Close is in progress (a background failure
+		// then is part of shutting down, not a failure to surface)
+		if e.Kind == "invoke" && strings.HasPrefix(e.Detail, "close") {
+			r.closeSpans = append(r.closeSpans, [2]int{e.Win, 1 << 30})
+		}
+		if e.Kind == "return" && strings.HasPrefix(e.Detail, "close") && len(r.closeSpans) > 0 {
+			r.closeSpans[len(r.closeSpans)-1][1] = e.Win
 		}
 	}
 	if r.failed() {
@@ -1295,7 +1369,7 @@ var runCounter int
 func newRun(p *Profile, t *Tape, scratch string) *Run {
 	runCounter++
 	r := &Run{p: p, t: t, stored: map[string]map[string]string{}, acks: map[int]int{}, ackErr: map[int]string{}, invokeSeq: map[int]int{},
-		merging: map[string][]string{}, callWin: map[int]int{}, docs: map[string]*DocSpec{}, recovered: map[int]*Content{}, slotBusy: map[int]bool{}, slotOf: map[string]int{}}
+		merging: map[string][]string{}, callWin: map[int]int{}, docs: map[string]*DocSpec{}, recovered: map[int]*Content{}, slotBusy: map[int]bool{}, slotOf: map[string]int{}, ackCount: map[int]int{}}
 	r.stats.Probes = map[string]int{}
 	r.stats.Faults = map[string]int{}
 	r.root = filepath.Join(scratch, fmt.Sprintf("run-%d", runCounter))
@@ -1464,6 +1538,25 @@ func (r *Run) quiescentChecks() {
 		r.probe("ambiguous-final-explanation")
 	}
 	r.finalModel = r.chain.Current()
+	if r.k.PCB && !r.earlyClosed {
+		// every batch that was applied is acknowledged through its persisted
+		// callback exactly once by the time the writer is idle (after a
+		// failed persist the callbacks are re-attached to the next success)
+		for _, b := range r.batches {
+			if r.chain.inflight[b.N] != nil || b.Via != "" {
+				continue // Insert/Update/Delete build their own batch: no callback can be attached
+			}
+			switch n := r.ackCount[b.N]; {
+			case n == 0:
+				r.fail("callback-lost", fmt.Sprintf("the writer is idle and %s is durable, but its persisted callback was never invoked (%d async errors were reported)", b.String(), r.asyncErrs))
+				return
+			case n > 1:
+				r.fail("callback-twice", fmt.Sprintf("the persisted callback of %s was invoked %d times", b.String(), n))
+				return
+			}
+		}
+		r.stats.Probes["callbacks-exactly-once-checked"]++
+	}
 	if r.dupID != "" {
 		// an id written only through Update must have exactly one live document
 		onlyUpdates, n := true, 0
@@ -1695,4 +1788,46 @@ func (r *Run) teardown() {
 	if r.viol == nil || os.Getenv("BSIM_KEEP") == "" {
 		_ = os.RemoveAll(r.root)
 	}
+}
+
+// othersBetweenCalls: every other client is parked waiting for its next
+// operation (or finished), i.e. no call is in flight.
+func (r *Run) othersBetweenCalls(c *client) bool {
+	parked := map[string]bool{}
+	for _, p := range r.s.parkedSnapshot() {
+		if p.label == "next-op" {
+			parked[p.actor] = true
+		}
+	}
+	for _, o := range r.clients {
+		if o == c || o.done {
+			continue
+		}
+		if !parked[o.name] {
+			return false
+		}
+	}
+	return true
+}
+
+// allReturnedAcked: every batch that returned without error has been
+// acknowledged as durable (safe mode: by returning; unsafe: by its callback).
+func (r *Run) allReturnedAcked() bool {
+	if r.k.Unsafe && !r.k.PCB {
+		return false
+	}
+	for _, b := range r.batches {
+		if _, ok := r.acks[b.N]; !ok {
+			if _, failed := r.ackErr[b.N]; failed {
+				return false // its error return leaves durability open
+			}
+			if r.chain.inflight[b.N] != nil {
+				return false
+			}
+			if r.k.Unsafe {
+				return false // includes Insert/Update/Delete calls, which cannot carry a callback
+			}
+		}
+	}
+	return true
 }
